@@ -67,6 +67,7 @@ impl Prop for C10 {
             queue: QueueCfg::Vec,
             controllers: 1,
             tree,
+            plain488: false,
         };
         let mut t = base_trace("C10", seed, run, "framing", cfg.clone());
         let tc = TreeCtx::new(&cfg.tree);
